@@ -1175,6 +1175,11 @@ func (g *Gen) strMsg(w *World) MsgSpec {
 		if g.pct(20) {
 			amt = big.NewInt(int64(1 + g.R.Intn(100)))
 		}
+		if g.Flags["huge"] && g.pct(10) {
+			// more than anybody owns, up to the largest amount a coin can carry
+			amt, _ = new(big.Int).SetString(pick(g.R, []string{"115792089237316195423570985008687907853269984665640564039457584007913129639935", "57896044618658097711785492504343953926634992332820282019728792003956564819968", "66749594872528440074844428317798503581334516323645399060845050244444366430645"}), 10)
+			w.Fault("input.topup_beyond_any_balance")
+		}
 		denom := st.Denom
 		if g.pct(4) {
 			denom = Denom3
